@@ -54,7 +54,7 @@ CLAIMS = {
         'through every Borrow impl between library types.',
    note=TB + 'derive(Ord/Hash) semantics of std (field order, Option discriminant as isize, [u8] length prefix) are modelled as observed.'),
  'C09': dict(cat='proof', tech='Coq proof (stack walk of the model = specification walk; normal form; idempotence) + correspondence with an RFC 5.2.4 oracle',
-   text="Theorems C09_normalized_segments_of_text (for every path free of '?' and '#' the normalized-segment iterator of the model yields exactly `norm` -- drop '.', '..' pops / is kept when relative and nothing is left / is dropped at the root -- of the '/'-split of the text), C09_normalized_segments, C09_normal_form, C09_idempotent, C09_render_segs. IN-PLACE normalize(): C09_normalize_in_place (index-level handle: no panic, bytes before and after the path untouched, offsets coherent, the view becomes normalize1 v), C09_normalize_text (normalize1 v = rendering, with v's absoluteness, of the specification walk on the '/'-split, preceded by one '.' segment exactly when the code writes its './' shield), C09_normalize_keeps_absoluteness. The copying normalized() (a fold of symbolic pushes; known findings there) is modelled (PathMut.v) and judged by the rendering oracle together with all entry points (stand-alone and embedded, > 16 segments / > 512 bytes, twice through one handle): partial. Known findings K_G11, K_shield_left.",
+   text="Theorems C09_normalized_segments_of_text (for every path free of '?' and '#' the normalized-segment iterator of the model yields exactly `norm` -- drop '.', '..' pops / is kept when relative and nothing is left / is dropped at the root -- of the '/'-split of the text), C09_normalized_segments, C09_normal_form, C09_idempotent, C09_render_segs. IN-PLACE normalize(): C09_normalize_in_place (index-level handle: no panic, bytes before and after the path untouched, offsets coherent, the view becomes normalize1 v), C09_normalize_text (normalize1 v = rendering, with v's absoluteness, of the specification walk on the '/'-split, preceded by one '.' segment exactly when the code writes its './' shield), C09_normalize_keeps_absoluteness. THE COPYING normalized(): C09_normalized_partial (fold of symbolic pushes through fresh handles + closing segment, index-level model: no panic and exactly RFC 3986 5.2.4 on every path without an empty segment before its last one and without a segment that needs the './' colon shield; C09_normalized_witnesses shows both exclusions are needed -- findings K_G11, K_shield_left). On the excluded shapes it is judged by the rendering oracle together with all entry points (stand-alone and embedded, > 16 segments / > 512 bytes, twice through one handle): partial. Known findings K_G11, K_shield_left.",
    note=TB + 'Interpretations I4, I8.'),
  'C10': dict(cat='proof', tech='Coq proof of the push law for all byte strings + L0 handle model correspondence + list-semantics oracle per edit',
    text='Theorems C10_push_law (push appends exactly the pushed segment, for EVERY byte string and context, all five branches), C10_push_handle (the same for the INDEX-LEVEL handle that is compared with the implementation: no panic, invariant buffer = before ++ view ++ after re-established, before/after untouched), C10_clear_handle, C10_clear_no_segments, C10_handle_sequences (any sequence of push/pop/clear through ONE handle performs the list-level edits of the view with coherent offsets and untouched surroundings, i.e. composes like fresh handles). POP: C10_pop_total (on every path free of \'?\' and \'#\' the backward scan never leaves the path; pop = pop_text), C10_pop_law_partial (a non-empty path whose last segment is not \'..\' loses exactly that segment and keeps its absoluteness; the excluded shape "//x" is the recorded finding, C10_K_pop_dslash_witness), C10_pop_pushes_dotdot, C10_pop_handle / C10_symbolic_push_handle / C10_symbolic_append_handle (index-level handle: no panic, frame untouched, path stays well-formed in its context, text-level result sym_push1 / sym_append1). The list-level reading of the symbolic operations (what \'..\' removes when the path is a lone \'.\' etc.) is compared after every edit with list-semantics laws and frame checks: partial. Known findings K_pop_dslash, K_dot_only, K_G11.',
